@@ -17,7 +17,7 @@ import numpy
 from .. import engine, fpx
 from ..translate import blocks
 
-THEOREMS = ["next_overflow_checks", "next_kindsS", "Lmax32_ge4", "next_up_total_f32", "is_power_of_two_total_f32", "next_up_total_f16", "next_up_total_f64", "next_down_total_f32", "generated_wf", "ties_next", "next_constant_value", "next_all_precisions", "neighbours", "next_up_generated", "is_power_of_two_all_precisions", "next_up_bit_exact_f32", "refinement_scope", "is_power_of_two_shape_f32", "is_power_of_two_bit_exact_f32",
+THEOREMS = ["next_overflow_checks", "next_kindsS", "Lmax32_ge4", "next_up_total_f32", "is_power_of_two_total_f32", "is_power_of_two_total_f16", "is_power_of_two_total_f64", "next_up_total_f16", "next_up_total_f64", "next_down_total_f32", "generated_wf", "ties_next", "next_constant_value", "next_all_precisions", "neighbours", "next_up_generated", "is_power_of_two_all_precisions", "next_up_bit_exact_f32", "refinement_scope", "is_power_of_two_shape_f32", "is_power_of_two_bit_exact_f32",
             "is_power_of_two_shape_f16", "is_power_of_two_bit_exact_f16", "is_power_of_two_shape_f64", "is_power_of_two_bit_exact_f64",
             "next_up_generated_f16", "next_up_generated_f64", "next_up_bit_exact_f16", "next_up_bit_exact_f64"]
 SEARCHED = ["is_power_of_two exact", "3Sum s+e+t = x+y+z and 1-ULP bound", "4Sum 1 ULP", "mul_add 2 ULP", "dot2 3 ULP",
